@@ -1149,6 +1149,29 @@ class _Run:
         return ["frame", part, via, "new" if new is not None else "none", focused]
 
 
+    def op_overlay(self, i, op):
+        """Overlay.contents[0] / [1] = (widget, options): replaces the bottom / top widget (options unchanged)."""
+        n = self.container_at(op.get("path", []))
+        if n.kind != "Overlay":
+            return "skip-not-an-overlay"
+        b = n.base
+        which = int(op.get("which", 1)) % 2
+        new = self.build(op["new"], "box")
+        new.parent = n
+        self.app_steps += 1
+        options = b.contents[which][1]
+        b.contents[which] = (new.w, options)
+        now = self.read(lambda: b.contents[which][0], "contents[...]")
+        if now[0] != "ok" or now[1] is not new.w:
+            self.violate("C08.1", "overlay-contents-assignment-not-applied", f"step {i}: Overlay at {self.label(n)}: contents[{which}] = (new widget, same options) but contents[{which}][0] is {now[1]!r}")
+            return ["overlay", which, "not-applied"]
+        n.kids[which] = new
+        self.check_model_sync(n, f"overlay contents[{which}]")
+        self.res.probe("overlay_part_replaced")
+        self.structure_changed()
+        return ["overlay", which]
+
+
 class ContainersEngine(Engine):
     prop = P
     name = "widgets-containers"
@@ -1319,6 +1342,7 @@ class ContainersEngine(Engine):
         conts = self.container_paths(tree)
         lists = [c for c in conts if c[1] in LIST_KINDS]
         frames = [c for c in conts if c[1] == "Frame"]
+        overlays = [c for c in conts if c[1] == "Overlay"]
 
         def some_path(pool):
             if pool and rng.random() < 0.85:
@@ -1368,6 +1392,8 @@ class ContainersEngine(Engine):
                 else:
                     op["new"] = None
                 ops.append(op)
+            elif q < 0.85 and overlays:
+                ops.append({"op": "overlay", "path": list(rng.choice(overlays)[0]), "which": rng.randrange(2), "new": self.gen_new(rng, ctr, "box")})
             elif q < 0.88:
                 ops.append({"op": "resize", "size": [rng.choice(COLS), rng.choice(ROWS)] if rng.random() < 0.4 else [rng.choice(COLS[1:]), rng.choice(ROWS[1:])]})
             elif q < 0.94:
